@@ -307,6 +307,10 @@ def family_f():
         '        dst.c1[0] = serial_reduce_array(dst.m, "sum") + t\n'
         '        dst.c3[0] = serial_reduce_array(dst.m, "max") - dt\n',
     ])
+    add('F_loop_all_count', [method('loop_all', [
+        'd_o[d_idx*16] = N_NBRS + 1.0',
+        'd_o[d_idx*16 + 1] += 0.5 + dt',
+    ])])
     add('F_loop_all_kernel', [method('loop_all', [
         'acc = 0.0',
         'for i in range(N_NBRS):',
@@ -408,8 +412,10 @@ def _val(array, prop, i, j=0):
 
 def make_arrays(dim, nslot=NSLOT):
     from pysph.base.particle_array import ParticleArray
+    # a[3] is isolated: no neighbour in b, only itself in a (a destination
+    # particle without neighbours still gets initialize, loop_all, post_loop)
     pos = {'a': [(0.0, 0.0, 0.0), (0.31, 0.07, 0.11), (0.12, 0.41, 0.23),
-                 (0.29, 0.33, 0.05), (0.21, 0.18, 0.3)],
+                 (3.9, 0.0, 0.0), (0.21, 0.18, 0.3)],
            'b': [(0.17, 0.13, 0.19), (0.43, 0.29, 0.02), (0.05, 0.26, 0.14),
                  (0.36, 0.46, 0.27), (0.24, 0.02, 0.09)]}
     out = []
